@@ -450,6 +450,7 @@ def eval_points(spec):
             {"type": "points", "spec": spec, "lat": list(lat), "route": route, "subset": list(S_idx)},
         )
 
+    n_lat = 0
     for lat in point_lattice(spec["ang"]):
         az, alt, rf = lat
         p = cam + R @ (rf * vd * M.direction(math.radians(az), math.radians(alt)))
@@ -465,8 +466,14 @@ def eval_points(spec):
         if M.classify_point(cam, np.eye(3), ang, vd, p, 0.0, 0.0) != cls:
             acc.inc("nontrivial_orientation")
         pv = V(*p)
-        tp = s.Point._with(position=pv)
-        top = s.OrientedPoint._with(position=pv, yaw=0.3)
+        # target forms alternate along the lattice: operator gets a Point object / a raw vector,
+        # the requirement classes get the same Point / an OrientedPoint
+        n_lat += 1
+        if n_lat % 2:
+            tp = top = s.Point._with(position=pv)
+        else:
+            tp = pv
+            top = s.OrientedPoint._with(position=pv, yaw=0.3)
         # -- no occluders (the non-occluding copies are present in the plumbing routes)
         routes = [
             ("canSee", lambda: bool(viewer.canSee(pv))),
@@ -924,13 +931,19 @@ def run_program(text):
             return "reject", str(e)
 
 
-def eval_programs(spec):
+PROGRAM_PARTS = 6
+
+
+def eval_programs(payload):
+    spec, part = payload["spec"], payload.get("part")
     acc = Acc()
     cam, R, ang, vd = model_of(spec)
     kind = spec["kind"]
     affected = affected_by_defect_class(spec)
     _, _, wdims = None, None, None
-    for pc in program_cases(spec):
+    for i, pc in enumerate(program_cases(spec)):
+        if part is not None and i % PROGRAM_PARTS != part:
+            continue
         res, msg = run_program(pc["text"])
         acc.inc("evaluations")
         acc.inc("programs")
@@ -965,12 +978,18 @@ def eval_programs(spec):
 # plan / run
 # ----------------------------------------------------------------------------------------
 def dispatch(item):
+    import time
+
     kind, payload = item
+    t0 = time.process_time()
     if kind == "points":
-        return eval_points(payload)
-    if kind == "object":
-        return eval_object(payload)
-    return eval_programs(payload)
+        r = eval_points(payload)
+    elif kind == "object":
+        r = eval_object(payload)
+    else:
+        r = eval_programs(payload)
+    r["cpu"] = time.process_time() - t0
+    return r
 
 
 def rays_for(shape):
@@ -1030,8 +1049,17 @@ def plan(tier):
 
     poses = [("off", pos, r) for pos in positions for r in rots] + [("cam0", None, r) for r in rots0]
     # --- point targets
-    for kind, mode, pos, r, ang in kpa(poses, angle_sets):
+    if quick:
+        # all 12 angle sets on five poses, four angle sets on the other nine
+        main = [("off", positions[0], r) for r in ((0, 0, 0), (90, 0, 0), (40, 30, 45), (-135, -60, 120))] + [("cam0", None, (40, 30, 45))]
+        rest = [p for p in poses if p not in main]
+        pl = kpa(main, angle_sets) + [x for x in kpa(rest, ANGLES_OBJ_QUICK) if x[0] != "Point"]
+    else:
+        pl = kpa(poses, angle_sets)
+    for kind, mode, pos, r, ang in pl:
         for vd in vds:
+            if vd != vds[0] and not (mode == "off" and pos == positions[0]):
+                continue  # the other visible distances on the first position only
             items.append(("points", viewer_spec(kind, mode, pos, r, ang, vd)))
     if quick:
         for kind, mode, pos, r, ang in kpa([("off", positions[0], (40, 30, 45))], [(90, 90), (200, 20)]):
@@ -1044,9 +1072,9 @@ def plan(tier):
         items += object_items(kpa(oposes, ANGLES_OBJ_QUICK), (10.0,), lambda a: (0.45,) if narrow(a) else (0.7,), ((25, 15, -10),))
     else:
         oposes = (
-            [("off", positions[0], r) for r in ROTS_QUICK]
+            [("off", positions[0], r) for r in ROTS_QUICK if r not in ((-135, 0, 0), (40, 0, 45))]
             + [("off", positions[1], (40, 30, 45)), ("off", positions[2], (0, -60, 120))]
-            + [("cam0", None, r) for r in ROTS_ORIGIN_QUICK]
+            + [("cam0", None, r) for r in ((40, 30, 45), (-135, -60, 120))]
         )
         items += object_items(kpa(oposes, ANGLES_ALL), (10.0,), lambda a: (0.45,) if narrow(a) else (0.7,), ((25, 15, -10),))
         # second size / target orientation / distance on a sub-lattice of poses and angles
@@ -1067,7 +1095,8 @@ def plan(tier):
         pposes = [("off", positions[0], r) for r in ROTS_QUICK] + [("cam0", None, r) for r in ROTS_ORIGIN_QUICK]
         pv = kpa(pposes, [(30, 20), (90, 90), (200, 180), (360, 20), (90, 180), (400, 200)])
     for kind, mode, pos, r, ang in pv:
-        items.append(("programs", viewer_spec(kind, mode, pos, r, ang, 10.0)))
+        for part in range(PROGRAM_PARTS):
+            items.append(("programs", {"spec": viewer_spec(kind, mode, pos, r, ang, 10.0), "part": part}))
     return items
 
 
@@ -1101,15 +1130,27 @@ def selftest():
 def run(ctx):
     selftest()
     S()
+    import gc
+
+    # warm-up in the parent: lazy initialisations (mesh engines, pruning, requirement code) happen
+    # once here instead of once per forked worker
+    w = viewer_spec("Object", "off", (3.0, 4.0, 1.0), (10, 5, 0), (90, 90), 10.0, RAYS_CHEAP)
+    eval_object(object_case(w, "Frame", 0.7, (0, 0, 0), ("ahead", 0.0, 0.0, 6.0)))
+    eval_programs({"spec": w, "part": 1})
+    gc.collect()
+    gc.freeze()  # performance only: keeps the forked workers from copying the parent's heap page by page
     items = ctx.rotate(plan(ctx.tier))
+    items.sort(key=lambda it: {"programs": 0, "object": 1, "points": 2}[it[0]])  # stable: long items first
     tot = {}
     nsig = {}
     flags = set()
     samples = []
     n_items = {"points": 0, "object": 0, "programs": 0}
     shown = {}
-    for (ikind, _), r in zip(items, ctx.pmap(dispatch, items, chunksize=4)):
+    cpu = {}
+    for (ikind, _), r in zip(items, ctx.pmap(dispatch, items, chunksize=2)):
         n_items[ikind] += 1
+        cpu[ikind] = cpu.get(ikind, 0.0) + r["cpu"]
         for k, v in r["c"].items():
             tot[k] = tot.get(k, 0) + v
         for k, v in r["nsig"].items():
@@ -1186,6 +1227,7 @@ def run(ctx):
         skipped_gimbal=tot.get("skipped_gimbal", 0),
         unspecified_sparse_rays=tot.get("unspecified_sparse_rays", 0),
         violating_cases=tot.get("violating_cases", 0),
+        cpu_seconds_by_item_type={k: round(v, 1) for k, v in cpu.items()},
         violating_cases_by_signature=dict(sorted(nsig.items())),
         bounds={
             "tier": ctx.tier,
@@ -1228,7 +1270,7 @@ def replay(ctx, case):
             if c["what"] == case["what"] and list(c["subset"]) == list(case["subset"]):
                 ctx.violation(sig, desc, c)
     else:
-        r = _uncapped(eval_programs, case["spec"])
+        r = _uncapped(eval_programs, {"spec": case["spec"], "part": None})
         for sig, desc, c in r["viol"]:
             if c["form"] == case["form"] and c["text"] == case["text"]:
                 ctx.violation(sig, desc, c)
